@@ -14,6 +14,7 @@ STATS = {"paths": 0}
 
 
 def install():
+    import crosshair.core_and_libs  # noqa: F401  (runs CrossHair's own registrations first; they reset the tables)
     from crosshair.libimpl import builtinslib as B
     from crosshair import opcode_intercept as O
     from crosshair import core
@@ -91,3 +92,7 @@ def install():
         return msg
 
     core.make_counterexample_message = make_msg
+
+    # 5. model of hash randomisation (inactive unless a C17 harness switches it on)
+    import hash_order
+    hash_order.install()
